@@ -17,6 +17,14 @@ def rapid(name, test, quick, thorough, **kw):
     return d
 
 CHECKS = {
+    "C04": {
+        "level": "exploration",
+        "phases": [
+            rapid("prop", "TestProp",
+                  {"checks": 3000, "shards": 12, "timeout": 400},
+                  {"checks": 60000, "shards": 16, "timeout": 2400}),
+        ],
+    },
     "C11": {
         "level": "exploration",
         "phases": [
